@@ -1,0 +1,8 @@
+//go:build !verif
+// +build !verif
+
+package keeper
+
+// verifFault is a fault-injection point used only by the verification harness
+// (build tag "verif"); without the tag it is a no-op.
+func verifFault(string) error { return nil }
